@@ -104,51 +104,71 @@ mod verif_nx_lex {
     // the scanner (find_directive_expr_end <-> parse_directive_expr).  Every sequence of <= 5 items is scanned under a watchdog.
     #[test]
     fn verif_nx_lex_nested_directives() {
-        let alpha = ["{$if ", "{$ifdef ", "{$elseif ", "{$endif}", "(*$if ", "{", "}", "(*", "*)", "'", "//", "\n", "x ", "defined(A)", "{$"];
-        let mut n = 0u64;
-        let mut idx: Vec<usize> = Vec::new();
-        loop {
-            let text: String = idx.iter().map(|&i| alpha[i]).collect();
-            let owned = text.clone();
-            let (tx, rx) = std::sync::mpsc::channel();
-            std::thread::spawn(move || {
+        // one worker scans all inputs; the test thread watches its progress (an endless loop shows as "no progress for 10 s")
+        use std::sync::{Arc, Mutex};
+        let current: Arc<Mutex<(String, u64)>> = Arc::new(Mutex::new((String::new(), 0)));
+        let cur2 = current.clone();
+        let worker = std::thread::spawn(move || {
+            let alpha = ["{$if ", "{$ifdef ", "{$elseif ", "{$endif}", "(*$if ", "{", "}", "(*", "*)", "'", "//", "\n", "x ", "defined(A)", "{$"];
+            let mut n = 0u64;
+            let mut idx: Vec<usize> = Vec::new();
+            loop {
+                let text: String = idx.iter().map(|&i| alpha[i]).collect();
+                {
+                    let mut g = cur2.lock().unwrap();
+                    g.0 = text.clone();
+                    g.1 = n;
+                }
                 let r = std::panic::catch_unwind(|| {
-                    let toks = lex_complete(&owned);
+                    let toks = lex_complete(&text);
                     let joined: String = toks.iter().map(|t| t.get_str()).collect();
                     let kinds_ok = toks.iter().all(|t| {
                         let c = t.get_content();
                         let is_dir = matches!(t.get_token_type(), TT::CompilerDirective | TT::ConditionalDirective(_));
                         (c.starts_with("{$") || c.starts_with("(*$")) == is_dir
                     });
-                    (joined == owned, kinds_ok, toks.len())
+                    (joined == text, kinds_ok)
                 });
-                let _ = tx.send(r.ok());
-            });
-            match rx.recv_timeout(std::time::Duration::from_secs(5)) {
-                Ok(Some((lossless, kinds_ok, _))) => {
-                    assert!(lossless, "OB lexnx/nested_lossless: tokens concatenate back to the input\n input={:?}", text);
-                    assert!(kinds_ok, "OB lexnx/nested_directive_kinds: exactly the tokens that start with a directive opener are directives\n input={:?}", text);
+                match r {
+                    Ok((lossless, kinds_ok)) => {
+                        assert!(lossless, "OB lexnx/nested_lossless: tokens concatenate back to the input\n input={:?}", text);
+                        assert!(kinds_ok, "OB lexnx/nested_directive_kinds: exactly the tokens that start with a directive opener are directives\n input={:?}", text);
+                    }
+                    Err(_) => panic!("OB lexnx/nested_returns: scanning never aborts\n input={:?}", text),
                 }
-                Ok(None) => panic!("OB lexnx/nested_returns: scanning never aborts\n input={:?}", text),
-                Err(_) => panic!("OB lexnx/nested_terminates: scanning nested directive expressions terminates\n input={:?}", text),
+                n += 1;
+                let mut k = idx.len();
+                let mut done = false;
+                loop {
+                    if k == 0 {
+                        if idx.len() == 5 { done = true; } else { idx = vec![0; idx.len() + 1]; }
+                        break;
+                    }
+                    k -= 1;
+                    if idx[k] + 1 < alpha.len() {
+                        idx[k] += 1;
+                        for j in k + 1..idx.len() { idx[j] = 0; }
+                        break;
+                    }
+                }
+                if done { break; }
             }
-            n += 1;
-            let mut k = idx.len();
-            let mut done = false;
-            loop {
-                if k == 0 {
-                    if idx.len() == 5 { done = true; } else { idx = vec![0; idx.len() + 1]; }
-                    break;
-                }
-                k -= 1;
-                if idx[k] + 1 < alpha.len() {
-                    idx[k] += 1;
-                    for j in k + 1..idx.len() { idx[j] = 0; }
-                    break;
-                }
+            n
+        });
+        let mut last = (u64::MAX, std::time::Instant::now());
+        while !worker.is_finished() {
+            std::thread::sleep(std::time::Duration::from_millis(200));
+            let g = current.lock().unwrap();
+            if g.1 != last.0 {
+                last = (g.1, std::time::Instant::now());
+            } else if last.1.elapsed().as_secs() >= 10 {
+                panic!("OB lexnx/nested_terminates: scanning nested directive expressions terminates (no progress for 10 s)\n input={:?}", g.0);
             }
-            if done { break; }
         }
+        let n = match worker.join() {
+            Ok(n) => n,
+            Err(e) => std::panic::resume_unwind(e),
+        };
         println!("NX lex_nested_directives: {} cases", n);
         assert!(n > 800_000, "enumeration ran");
     }
